@@ -76,8 +76,37 @@ def make(task):
             rho = Fr(rnd.choice(['2.7', '0.05', '7.85']))
         d.c10[-1]['rho'] = rho
         d.c10[-1]['rho_neg'] = rho_neg
-        d.cells.append(dk.Cell(k, ('and', ('s', k), ('s', -(k + 1))), mat=k, rho=None, imp=1))
-    d.cells.append(dk.Cell(nmat + 1, ('or', ('s', -1), ('s', nmat + 1)), imp=0))
+        uses = [(rho, rho_neg)]
+        # the same material in further cells, at other densities (atom and mass densities may alternate)
+        while len(uses) < 3 and rnd.random() < 0.4 and not mixed:
+            ng = rnd.random() < 0.5
+            if neg and not ng:
+                ng = True            # mass fractions with an atom density: not supported by the converter
+            if rnd.random() < 0.6:
+                r2 = RatFn.var('rho%d_%d' % (k, len(uses)))
+                pre.append(r2.z3_cmp('>'))
+            else:
+                r2 = Fr(rnd.choice(['1.5', '0.1', '4.25', '0.025']))
+            for r1, _ in uses:
+                diff = (r2 if isinstance(r2, RatFn) else RatFn.const(r2)) - (r1 if isinstance(r1, RatFn) else RatFn.const(r1))
+                if diff.as_const() is None:
+                    pre.append(diff.z3_cmp('!='))
+            if any(not isinstance(r1, RatFn) and not isinstance(r2, RatFn) and r1 == r2 for r1, _ in uses):
+                continue
+            uses.append((r2, ng))
+        d.c10[-1]['uses'] = uses
+    # one slab cell per use
+    total = sum(len(i['uses']) for i in d.c10)
+    d.surfs = [dk.Surf(i + 1, 'px', [Fr(i)]) for i in range(total + 1)]
+    cid = 0
+    for info in d.c10:
+        new_uses = []
+        for r_, ng in info['uses']:
+            cid += 1
+            d.cells.append(dk.Cell(cid, ('and', ('s', cid), ('s', -(cid + 1))), mat=info['mat'], rho=None, imp=1))
+            new_uses.append((r_, ng, cid))
+        info['uses'] = new_uses
+    d.cells.append(dk.Cell(total + 1, ('or', ('s', -1), ('s', total + 1)), imp=0))
     d.unparser = unparse_c10
     return d, pre
 
@@ -85,8 +114,8 @@ def make(task):
 def unparse_c10(deck, tk):
     """deck text: densities and fractions are tokens with their syntactic sign."""
     for info in deck.c10:
-        c = deck.cell(info['mat'])
-        c.rho = ('-' if info['rho_neg'] else '') + tk.tok(info['rho'])
+        for r_, ng, cid in info['uses']:
+            deck.cell(cid).rho = ('-' if ng else '') + tk.tok(r_)
         comp = []
         for i, (zaid, f, sneg) in enumerate(info['entries']):
             if info['kwpos'] == i:
@@ -178,12 +207,30 @@ def composition_problems(deck, t4, amount, base):
         r, _ = check_sat(list(base) + [d.z3_cmp('!=')], 10000)
         if r != 'unsat':
             pbs.append('amount: %s' % what)
-    for info in deck.c10:
-        c = deck.cell(info['mat'])
-        from t4_geom_convert.Kernel.Utils import normalize_float
-        cands = [cc for cc in t4.compositions if cc['name'].startswith('m%d_' % info['mat'])]
+    def is_zero(x):
+        if n.is_sym(x):
+            return x.as_const() == 0 if hasattr(x, 'as_const') and x.as_const() is not None else False
+        return x == 0
+
+    for info0 in deck.c10:
+      allc = [cc for cc in t4.compositions if cc['name'].startswith('m%d_' % info0['mat'])]
+      if len(allc) != len(info0['uses']):
+          pbs.append('count: material %d is used at %d densities and has %d compositions' % (info0['mat'], len(info0['uses']), len(allc)))
+          continue
+      for rho_u, neg_u, cid_u in info0['uses']:
+        info = dict(info0, rho=rho_u, rho_neg=neg_u)
+        cands = []
+        for cc in allc:
+            suffix = cc['name'].split('_', 1)[1]
+            try:
+                val = amount(suffix.lstrip('+-'))
+            except ValueError:
+                continue
+            if suffix.startswith('-') == bool(neg_u) and is_zero(n.sub(n.N(val) if not isinstance(val, Fr) else val,
+                                                                          n.N(rho_u) if isinstance(rho_u, RatFn) else Fr(rho_u))):
+                cands.append(cc)
         if len(cands) != 1:
-            pbs.append('count: material %d has %d compositions' % (info['mat'], len(cands)))
+            pbs.append('count: material %d at density %s%s has %d compositions' % (info['mat'], '-' if neg_u else '', rho_u, len(cands)))
             continue
         cc = cands[0]
         if not info['rho_neg'] and info['entries'][0][2]:
